@@ -162,7 +162,7 @@ run_deflate(struct scn *s)
         /* the context sits flush against a LEADING inaccessible page (reads before the struct fault) */
         zr = vh_region_get(sizeof(*z) + 64);
         z = (struct isal_zstream *) vh_place(&zr, sizeof(*z), VH_START, 0);
-        prefill(z, sizeof(*z), s->prefill);
+        prefill(z, sizeof(*z), s->prefill & 15);
         lr = vh_region_get(lsz + 64);
         outr = vh_region_get(maxao + 64);
         if (s->api == API_DEFLATE)
@@ -179,7 +179,7 @@ run_deflate(struct scn *s)
         z->hist_bits = s->hist_bits;
         if (s->lbuf != 5 && lsz > 0) {
                 z->level_buf = vh_place(&lr, lsz, VH_END, 0);
-                prefill(z->level_buf, lsz, s->prefill);
+                prefill(z->level_buf, lsz, s->prefill & 15);
                 z->level_buf_size = lsz;
         } else {
                 z->level_buf = NULL;
@@ -220,7 +220,7 @@ run_deflate(struct scn *s)
                 int r1, r2;
                 dr = vh_region_get(sizeof(struct isal_dict));
                 dstruct = (struct isal_dict *) vh_place(&dr, sizeof(struct isal_dict), VH_END, 0);
-                prefill(dstruct, sizeof(*dstruct), s->prefill);
+                prefill(dstruct, sizeof(*dstruct), s->prefill & 15);
                 r1 = isal_deflate_process_dict(z, dstruct, s->dict, s->dictlen);
                 r2 = isal_deflate_reset_dict(z, dstruct);
                 fprintf(out, "{\"e\":\"SetDict\",\"scn\":%d,\"ret\":%d,\"ret2\":%d}\n", s->id, r1, r2);
@@ -300,6 +300,34 @@ run_deflate(struct scn *s)
                         why = "error";
                         break;
                 }
+                if (s->dictmode == 4 && s->api == API_DEFLATE && z->internal_state.state != ZSTATE_END &&
+                    (z->internal_state.state != ZSTATE_NEW_HDR || z->internal_state.b_bytes_valid != z->internal_state.b_bytes_processed)) {
+                        /* wrong state (block open / input buffered): both dictionary calls must be refused */
+                        int r1 = isal_deflate_set_dict(z, s->dict, s->dictlen), r2 = 1;
+                        if (!dstruct) {
+                                dr = vh_region_get(sizeof(struct isal_dict));
+                                dstruct = (struct isal_dict *) vh_place(&dr, sizeof(struct isal_dict), VH_END, 0);
+                                memset(dstruct, 0, sizeof(*dstruct));
+                                isal_deflate_process_dict(z, dstruct, s->dict, s->dictlen);
+                        }
+                        r2 = isal_deflate_reset_dict(z, dstruct);
+                        fprintf(out, "{\"e\":\"SetDict\",\"scn\":%d,\"seq\":%d,\"wrong_state\":1,\"ret\":%d,\"ret2\":%d,\"st\":\"%s\"}\n", s->id, i, r1, r2,
+                                zstate_name(z->internal_state.state));
+                }
+                if ((s->dictmode == 6 || s->dictmode == 7) && s->api == API_DEFLATE && (s->prefill >> 4) == i + 1) {
+                        int r1, r2 = 0;
+                        if (s->dictmode == 6)
+                                r1 = isal_deflate_set_dict(z, s->dict, s->dictlen);
+                        else {
+                                dr = vh_region_get(sizeof(struct isal_dict));
+                                dstruct = (struct isal_dict *) vh_place(&dr, sizeof(struct isal_dict), VH_END, 0);
+                                memset(dstruct, 0, sizeof(*dstruct));
+                                r1 = isal_deflate_process_dict(z, dstruct, s->dict, s->dictlen);
+                                r2 = isal_deflate_reset_dict(z, dstruct);
+                        }
+                        fprintf(out, "{\"e\":\"SetDict\",\"scn\":%d,\"seq\":%d,\"wrong_state\":0,\"ret\":%d,\"ret2\":%d,\"st\":\"%s\",\"ti\":%u,\"to\":%u}\n", s->id, i, r1,
+                                r2, zstate_name(z->internal_state.state), z->total_in, z->total_out);
+                }
                 if (s->api == API_DEFLATE_STATELESS) {
                         why = "oneshot";
                         break;
@@ -364,7 +392,7 @@ run_inflate(struct scn *s)
                 maxao = s->tail_ao;
         sr = vh_region_get(sizeof(*st) + 64);
         st = (struct inflate_state *) vh_place(&sr, sizeof(*st), VH_START, 0);
-        prefill(st, sizeof(*st), s->prefill);
+        prefill(st, sizeof(*st), s->prefill & 15);
         outr = vh_region_get(maxao + 64);
         isal_inflate_init(st);
         st->next_in = NULL;
